@@ -19,7 +19,7 @@ RULE = (
     "one grid point evaluated (not skipped as singular). Also: CSE chains whose temporaries are read only by other temporaries (depth 3-5), "
     "temporaries that depend only on the control / calibration / dt, definitions whose symbols carry sympy assumptions "
     "(real=True / finite=True on all or on some symbols), and a block-size sweep (1..8 states, dense rows, rows with more "
-    "temporaries than statements)."
+    "temporaries than statements). One ui.Model object (and one set of noise / sensor dictionaries) is also compiled four times with different calibration maps and CSE settings; every compiled object is checked against ITS calibration right after compiling and again after all were compiled. "
 )
 ASSUMPTIONS = [
     "expressions limited to the grammar (+ - * /, integer powers 2,3,-1,-2, sin cos tan atan tanh exp log sqrt), depth <= 3",
@@ -49,6 +49,10 @@ def cases(tier, seed):
         yield {"def": d, "per_symbol": p, "seed": seed, "dts": [0.125, -0.25]}
     # many look-alike models compiled one after the other in ONE process, in both orders: a compiled model must not depend
     # on what was compiled before it, and must not be disturbed by what is compiled after it
+    # ONE ui.Model object compiled several times with different calibration maps / CSE settings
+    for d_ in (space.bind_def(2, 1, 2, order=1, sensors_shape=(2, 1)), space.bind_def(3, 2, 1, order=2, sensors_shape=(1, 2)),
+               space.bind_def(3, 0, 3, order=4, sensors_shape=(1,))):
+        yield {"kind": "shared", "def": d_, "seed": seed}
     ops = space.family_ops("thorough")
     for order in ("fwd", "rev"):
         for cse in (True, False):
@@ -105,6 +109,11 @@ def eval_sequence(case):
 
 
 def eval_case(case):
+    if case.get("kind") == "shared":
+        from fv import ekfcheck
+        n, fails = ekfcheck.shared_inputs(case["def"], case["seed"], aspects=("model",))
+        return {"n": n, "fails": fails, "sig": "shared:" + case["def"]["name"], "outcomes": ["evaluated", "shared-inputs"], "nontrivial": True,
+                "sample": {"kind": "shared-inputs", "definition": case["def"]["name"], "compiles_of_one_ui_model": 4, "calls": n}}
     if case.get("kind") == "sequence":
         return eval_sequence(case)
     d = case["def"]
